@@ -1,13 +1,21 @@
 /*
- * Fault-injection harness for C14, second component: the layers that have NO Lean failure model —
- * network_read / network_write, netbuf reader / writer, an HTTP request, asprintf users (humansize,
- * sock_addr_prettyprint).  "Observed by fault enumeration, not proved": there is no model to compare
- * with, only the L1 rules judged by `pmodel upmon`:
+ * Fault-injection harness for C14, upper layers: network_read / network_write / network_accept /
+ * network_connect, netbuf reader / writer, http_request, asprintf users (humansize, sock_addr_prettyprint).
+ *
+ * Two families of ops:
+ *  (1) whole sessions over real socketpairs (`nw nr nbw nbr http hs spp`): judged by the L1 rules of
+ *      `pmodel upmon` only (component `upper`; real poll capped at 1 ms, real clock; no L2):
  *   - a reported failure (NULL, -1, callback with an error status, events_run() == -1) needs a refused request
  *   - no sanitizer report / abort; the data that does get through is the right data (BAD=... otherwise)
  *   - after `end` (objects released with their normal calls, exit handlers run) no library block is live
- * Every op is one complete session over a fresh socketpair (real sockets, real poll capped at 1 ms, real
- * clock).  hwrap.h counts and fails only allocations made inside library calls.
+ *  (2) start / registration / teardown calls one at a time (`nr_start nr_cancel nw_* na_* nc_* nbr_* nbw_* hq_*`,
+ *      component `upstart`): no event-loop pass in between, so they are deterministic and are compared in
+ *      lock-step with lean/Percival/Model/AllocFail.lean (`pmodel upmodel`).  L2 = number of live library
+ *      blocks, the sizes of the requests made during the op in order (hence their number), which descriptors
+ *      have a reader / writer registered, how many immediate events and timers are registered, fill of the
+ *      four object pools.  Same L1 rules.
+ * hwrap.h counts and fails only allocations made inside library calls.  The event layer and
+ * network_read.c / network_write.c are included white-box (registration tables, pools).
  */
 #include <sys/socket.h>
 #include <sys/un.h>
@@ -19,7 +27,24 @@
 #include "hcommon.h"
 #include "hwrap.h"
 
-#include "events.h"
+#include "elasticarray.c"
+#include "ptrheap.c"
+#include "events.c"
+#include "events_immediate.c"
+#include "events_timer.c"
+#include "events_network.c"
+#define docallback nr_docallback
+#define callback_buf nr_callback_buf
+#include "network_read.c"
+#undef docallback
+#undef callback_buf
+#define docallback nw_docallback
+#define callback_buf nw_callback_buf
+#include "network_write.c"
+#undef docallback
+#undef callback_buf
+
+#include "aws_sign.h"
 #include "http.h"
 #include "humansize.h"
 #include "netbuf.h"
@@ -34,6 +59,17 @@ __wrap_poll(struct pollfd * p, nfds_t n, int timeout)
 {
 
 	return (__real_poll(p, n, (timeout < 0 || timeout > 1) ? 1 : timeout));
+}
+
+/* time(): fixed, so that a reference run of aws_sign_* and the run under faults produce the same strings */
+time_t __wrap_time(time_t *);
+time_t
+__wrap_time(time_t * t)
+{
+
+	if (t != NULL)
+		*t = (time_t)1700000000;
+	return ((time_t)1700000000);
 }
 
 /* exit handlers registered by library code (pools, events_*_shutdown): run by `end` */
@@ -160,6 +196,19 @@ server_step(void)
 	}
 }
 
+/* data still to be written into a descriptor by the peer side (more than the socket buffer takes at once) */
+static int feed_fd = -1;
+static uint8_t * feed_src;
+static size_t feed_off, feed_len;
+static void
+feed_step(void)
+{
+	ssize_t w;
+
+	while (feed_fd >= 0 && feed_off < feed_len && (w = write(feed_fd, feed_src + feed_off, feed_len - feed_off)) > 0)
+		feed_off += (size_t)w;
+}
+
 /* Run the event loop until `done`, at most `iters` passes; pfd >= 0: drain that peer descriptor. */
 static int stop_on_runfail;
 static void
@@ -169,6 +218,7 @@ spin(int pfd, int iters)
 
 	for (it = 0; it < iters && !done && !(stop_on_runfail && runfail); it++) {
 		server_step();
+		feed_step();
 		if (pfd >= 0)
 			peer_drain(pfd);
 		LIB(rc = events_run());
@@ -179,6 +229,22 @@ spin(int pfd, int iters)
 	}
 	if (pfd >= 0)
 		peer_drain(pfd);
+}
+
+/* after a failed netbuf_read_wait the reader must show exactly the bytes it showed before */
+static size_t nbr_visible;	/* bytes visible at the last peek */
+static void
+nbr_check_unchanged(struct netbuf_read * R, uint64_t seed, size_t consumed)
+{
+	uint8_t * d;
+	size_t dl, i;
+
+	LIB(netbuf_read_peek(R, &d, &dl));
+	if (dl < nbr_visible)
+		bad = "bytes-lost-by-failed-wait";
+	for (i = 0; i < dl && bad == NULL; i++)
+		if (d[i] != pat(seed, consumed + i))
+			bad = "bytes-changed-by-failed-wait";
 }
 
 static int hcb_n;
@@ -217,6 +283,505 @@ finish_line(const char * extra)
 		printf(" BAD=%s", bad);
 }
 
+
+/* ------------------------------------------------------------------ start / teardown ops (component `upstart`) */
+#define FDBASE 64		/* slot i is descriptor FDBASE + i (one end of a socketpair, never ready to be read) */
+#define NSLOT 24
+#define LISTENFD 60		/* the listening unix socket `g` addresses point to */
+#define MAXOBJ 32
+static void * h_rd[MAXOBJ], * h_wr[MAXOBJ], * h_acc[MAXOBJ], * h_conn[MAXOBJ], * h_http[MAXOBJ];
+static struct sock_addr ** h_conn_sas[MAXOBJ], ** h_http_sas[MAXOBJ];
+static struct netbuf_read * h_nbr[MAXOBJ];
+static int h_nbr_fd[MAXOBJ], h_nbr_busy[MAXOBJ];
+static struct netbuf_write * h_nbw[MAXOBJ];
+static int h_nbw_fd[MAXOBJ], h_nbw_reserved[MAXOBJ];
+static size_t h_nbw_resv[MAXOBJ];
+static char goodpath[128], badpath[128];
+static int fine_ready = 0;
+
+static int
+cb_never_ssize(void * cookie, ssize_t n)
+{
+
+	(void)cookie; (void)n;
+	bad = "callback-ran-without-event-loop";
+	return (0);
+}
+
+static int
+cb_never_int(void * cookie, int n)
+{
+
+	(void)cookie; (void)n;
+	bad = "callback-ran-without-event-loop";
+	return (0);
+}
+
+static int
+cb_never_http(void * cookie, struct http_response * res)
+{
+
+	(void)cookie; (void)res;
+	bad = "callback-ran-without-event-loop";
+	return (0);
+}
+
+static int
+cb_never(void * cookie)
+{
+
+	(void)cookie;
+	bad = "callback-ran-without-event-loop";
+	return (0);
+}
+
+/* fixed descriptors, so that the sizes the event layer asks for do not depend on the process' history */
+static void
+fine_setup(const char * tmpdir)
+{
+	struct sockaddr_un sun;
+	int sv[2], i, l;
+
+	for (i = 0; i < NSLOT; i += 2) {
+		socketpair(AF_UNIX, SOCK_STREAM, 0, sv);
+		dup2(sv[0], FDBASE + i); dup2(sv[1], FDBASE + i + 1);
+		close(sv[0]); close(sv[1]);
+		nonblock(FDBASE + i); nonblock(FDBASE + i + 1);
+	}
+	snprintf(goodpath, sizeof(goodpath), "%s/listen", tmpdir);
+	snprintf(badpath, sizeof(badpath), "%s/nobody-listens", tmpdir);
+	memset(&sun, 0, sizeof(sun));
+	sun.sun_family = AF_UNIX;
+	strncpy(sun.sun_path, goodpath, sizeof(sun.sun_path) - 1);
+	l = socket(AF_UNIX, SOCK_STREAM, 0);
+	bind(l, (struct sockaddr *)&sun, sizeof(sun));
+	listen(l, 128);
+	dup2(l, LISTENFD);
+	close(l);
+	nonblock(LISTENFD);
+	fine_ready = 1;
+}
+
+/* connections nobody will ever accept: take them out of the backlog */
+static void
+drain_listener(void)
+{
+	int c;
+
+	if (!fine_ready)
+		return;
+	while ((c = accept(LISTENFD, NULL, NULL)) >= 0)
+		close(c);
+}
+
+/* address list for a pattern over {g,b}; `-` is the empty list (allocated by the harness, not counted) */
+static struct sock_addr **
+mk_sas(const char * pat)
+{
+	size_t n = (strcmp(pat, "-") == 0) ? 0 : strlen(pat), i;
+	struct sock_addr ** sas = malloc((n + 1) * sizeof(struct sock_addr *));
+
+	for (i = 0; i < n; i++) {
+		struct sock_addr ** one = sock_resolve(pat[i] == 'g' ? goodpath : badpath);
+
+		sas[i] = one[0];
+		free(one);
+	}
+	sas[n] = NULL;
+	return (sas);
+}
+
+static int
+slot_busy(int fd, int w)
+{
+	struct socketrec * sr;
+
+	if (S == NULL || (size_t)fd >= socketlist_getsize(S))
+		return (0);
+	sr = socketlist_get(S, (size_t)fd);
+	return (w ? sr->writer != NULL : sr->reader != NULL);
+}
+
+static void
+fine_l2(void)
+{
+	struct eventq * q;
+	size_t i, n = 0;
+	int p, first = 1;
+
+	printf(" | live=%ld ", hw_live);
+	hw_print_req();
+	printf(" S=");
+	if (S != NULL)
+		for (i = 0; i < socketlist_getsize(S); i++) {
+			struct socketrec * sr = socketlist_get(S, i);
+
+			if (sr->reader == NULL && sr->writer == NULL)
+				continue;
+			printf("%s%zu:%s%s", first ? "" : ",", i, sr->reader ? "r" : "-", sr->writer ? "w" : "-");
+			first = 0;
+		}
+	if (first)
+		putchar('-');
+	for (p = 0; p < 32; p++)
+		TAILQ_FOREACH(q, &heads[p], entries)
+			n++;
+	printf(" imm=%zu tm=%zu", n, Q == NULL ? (size_t)0 : ((struct ptrheap *)(*(void **)Q))->nelems);
+	printf(" pools=%zu/%zu,%zu/%zu,%zu/%zu,%zu/%zu", mpool_network_read_cookie_rec.stacklen,
+	    mpool_network_read_cookie_rec.allocsize, mpool_network_write_cookie_rec.stacklen,
+	    mpool_network_write_cookie_rec.allocsize, mpool_eventrec_rec.stacklen, mpool_eventrec_rec.allocsize,
+	    mpool_eventq_rec.stacklen, mpool_eventq_rec.allocsize);
+}
+
+static void
+pool_reset(struct mpool * M, void ** st, size_t size)
+{
+
+	M->stacklen = 0;
+	M->allocsize = size;
+	M->allocs = st;
+	M->nallocs = M->nempties = 0;
+	M->state = 0;
+}
+
+static void
+conn_cancel(int h)
+{
+
+	LIB(network_connect_cancel(h_conn[h]));
+	h_conn[h] = NULL;
+	sock_addr_freelist(h_conn_sas[h]);
+}
+
+static void
+http_cancel(int h)
+{
+
+	LIB(http_request_cancel(h_http[h]));
+	h_http[h] = NULL;
+	sock_addr_freelist(h_http_sas[h]);
+}
+
+struct tqrec_mirror { struct timeval tv; size_t rc; void * ptr; };
+
+/*
+ * Registrations that are still there although every object has been released ("a failed registration leaves
+ * nothing registered" is violated): cancel them, so that the next case starts clean, and count them.
+ */
+static int
+force_clean(void)
+{
+	struct eventq * q;
+	size_t i;
+	int p, n = 0;
+
+	for (i = 0; S != NULL && i < socketlist_getsize(S); i++) {
+		if (socketlist_get(S, i)->reader != NULL) {
+			LIB((void)events_network_cancel((int)i, EVENTS_NETWORK_OP_READ));
+			n++;
+		}
+		if (socketlist_get(S, i)->writer != NULL) {
+			LIB((void)events_network_cancel((int)i, EVENTS_NETWORK_OP_WRITE));
+			n++;
+		}
+	}
+	for (p = 0; p < 32; p++)
+		while ((q = TAILQ_FIRST(&heads[p])) != NULL) {
+			LIB(events_immediate_cancel(q));
+			n++;
+		}
+	while (Q != NULL && ((struct ptrheap *)(*(void **)Q))->nelems > 0) {
+		struct tqrec_mirror * tr = *ptrlist_get(((struct ptrheap *)(*(void **)Q))->elems, 0);
+
+		LIB(events_timer_cancel(tr->ptr));
+		n++;
+	}
+	return (n);
+}
+
+/*
+ * Release every object of the start/teardown ops with its normal call (fixed order: the model does the
+ * same), run the library's exit handlers, and put the pools back into their initial state.  Returns the
+ * number of registrations that were left behind.
+ */
+static int
+release_all(void)
+{
+	int h, left;
+
+	for (h = 0; h < MAXOBJ; h++)
+		if (h_http[h] != NULL)
+			http_cancel(h);
+	for (h = 0; h < MAXOBJ; h++)
+		if (h_conn[h] != NULL)
+			conn_cancel(h);
+	for (h = 0; h < MAXOBJ; h++)
+		if (h_acc[h] != NULL) {
+			LIB(network_accept_cancel(h_acc[h]));
+			h_acc[h] = NULL;
+		}
+	for (h = 0; h < MAXOBJ; h++)
+		if (h_rd[h] != NULL) {
+			LIB(network_read_cancel(h_rd[h]));
+			h_rd[h] = NULL;
+		}
+	for (h = 0; h < MAXOBJ; h++)
+		if (h_wr[h] != NULL) {
+			LIB(network_write_cancel(h_wr[h]));
+			h_wr[h] = NULL;
+		}
+	for (h = 0; h < MAXOBJ; h++)
+		if (h_nbr[h] != NULL) {
+			LIB(netbuf_read_wait_cancel(h_nbr[h]));
+			LIB(netbuf_read_free(h_nbr[h]));
+			h_nbr[h] = NULL;
+			h_nbr_busy[h] = 0;
+		}
+	for (h = 0; h < MAXOBJ; h++)
+		if (h_nbw[h] != NULL) {
+			LIB(netbuf_write_free(h_nbw[h]));
+			h_nbw[h] = NULL;
+			h_nbw_reserved[h] = 0;
+		}
+	drain_listener();
+	left = force_clean();
+	/* the library's own exit handlers: pools, events_timer_shutdown, events_network_shutdown */
+	for (h = nhandlers - 1; h >= 0; h--)
+		LIB((handlers[h])());
+	pool_reset(&mpool_eventrec_rec, mpool_eventrec_static, 4096);
+	pool_reset(&mpool_eventq_rec, mpool_eventq_static, 4096);
+	pool_reset(&mpool_network_read_cookie_rec, mpool_network_read_cookie_static, 16);
+	pool_reset(&mpool_network_write_cookie_rec, mpool_network_write_cookie_static, 16);
+	minq = 32;
+	return (left);
+}
+
+static int
+objidx(const char * tok)
+{
+	int h = atoi(tok);
+
+	return ((h < 0 || h >= MAXOBJ) ? -1 : h);
+}
+
+static int
+slotfd(const char * tok)
+{
+	int sl = atoi(tok);
+
+	return ((sl < 0 || sl >= NSLOT) ? -1 : FDBASE + sl);
+}
+
+/* One start/teardown op; returns 0 if the line is not one of them. */
+static int
+fine_op(void)
+{
+	int h, fd;
+
+	if (hc_is("nr_start", 2) || hc_is("nw_start", 2) || hc_is("na_start", 2)) {
+		void ** tab = hc_tok[0][1] == 'r' ? h_rd : hc_tok[0][1] == 'w' ? h_wr : h_acc;
+		int isw = hc_tok[0][1] == 'w';
+		static uint8_t iobuf[16];
+
+		h = objidx(hc_tok[1]); fd = slotfd(hc_tok[2]);
+		if (h < 0 || fd < 0 || tab[h] != NULL || slot_busy(fd, isw)) {
+			printf("skip");
+			return (1);
+		}
+		if (hc_tok[0][1] == 'r')
+			LIB(tab[h] = network_read(fd, iobuf, sizeof(iobuf), 1, cb_never_ssize, NULL));
+		else if (isw)
+			LIB(tab[h] = network_write(fd, iobuf, sizeof(iobuf), 1, cb_never_ssize, NULL));
+		else
+			LIB(tab[h] = network_accept(fd, cb_never_int, NULL));
+		if (tab[h] == NULL)
+			failed = 1;
+	} else if (hc_is("nr_cancel", 1) || hc_is("nw_cancel", 1) || hc_is("na_cancel", 1)) {
+		void ** tab = hc_tok[0][1] == 'r' ? h_rd : hc_tok[0][1] == 'w' ? h_wr : h_acc;
+
+		h = objidx(hc_tok[1]);
+		if (h < 0 || tab[h] == NULL) {
+			printf("skip");
+			return (1);
+		}
+		if (hc_tok[0][1] == 'r')
+			LIB(network_read_cancel(tab[h]));
+		else if (hc_tok[0][1] == 'w')
+			LIB(network_write_cancel(tab[h]));
+		else
+			LIB(network_accept_cancel(tab[h]));
+		tab[h] = NULL;
+	} else if (hc_is("nc_start", 3)) {
+		/* nc_start <h> <pattern over g,b or -> <timeout in usec or -> */
+		struct timeval tv;
+		long long us = strcmp(hc_tok[3], "-") == 0 ? -1 : strtoll(hc_tok[3], NULL, 10);
+
+		h = objidx(hc_tok[1]);
+		if (h < 0 || h_conn[h] != NULL || strlen(hc_tok[2]) > 8) {
+			printf("skip");
+			return (1);
+		}
+		h_conn_sas[h] = mk_sas(hc_tok[2]);
+		tv.tv_sec = (time_t)(us / 1000000);
+		tv.tv_usec = (suseconds_t)(us % 1000000);
+		if (us < 0)
+			LIB(h_conn[h] = network_connect(h_conn_sas[h], cb_never_int, NULL));
+		else
+			LIB(h_conn[h] = network_connect_timeo(h_conn_sas[h], &tv, cb_never_int, NULL));
+		if (h_conn[h] == NULL) {
+			failed = 1;
+			sock_addr_freelist(h_conn_sas[h]);
+		}
+	} else if (hc_is("nc_cancel", 1)) {
+		h = objidx(hc_tok[1]);
+		if (h < 0 || h_conn[h] == NULL) {
+			printf("skip");
+			return (1);
+		}
+		conn_cancel(h);
+	} else if (hc_is("nbr_init", 2)) {
+		h = objidx(hc_tok[1]); fd = slotfd(hc_tok[2]);
+		if (h < 0 || fd < 0 || h_nbr[h] != NULL) {
+			printf("skip");
+			return (1);
+		}
+		LIB(h_nbr[h] = netbuf_read_init(fd));
+		h_nbr_fd[h] = fd;
+		h_nbr_busy[h] = 0;
+		if (h_nbr[h] == NULL)
+			failed = 1;
+	} else if (hc_is("nbr_wait", 2)) {
+		size_t len = strtoull(hc_tok[2], NULL, 10);
+		int rc;
+
+		h = objidx(hc_tok[1]);
+		/* a wait for 0 bytes is answered through an immediate event, any other through network_read */
+		if (h < 0 || h_nbr[h] == NULL || h_nbr_busy[h] || (len > 0 && slot_busy(h_nbr_fd[h], 0))) {
+			printf("skip");
+			return (1);
+		}
+		LIB(rc = netbuf_read_wait(h_nbr[h], len, cb_never_int, NULL));
+		if (rc)
+			failed = 1;
+		else
+			h_nbr_busy[h] = 1;
+	} else if (hc_is("nbr_cancel", 1)) {
+		h = objidx(hc_tok[1]);
+		if (h < 0 || h_nbr[h] == NULL) {
+			printf("skip");
+			return (1);
+		}
+		LIB(netbuf_read_wait_cancel(h_nbr[h]));
+		h_nbr_busy[h] = 0;
+	} else if (hc_is("nbr_free", 1)) {
+		h = objidx(hc_tok[1]);
+		if (h < 0 || h_nbr[h] == NULL || h_nbr_busy[h]) {
+			printf("skip");
+			return (1);
+		}
+		LIB(netbuf_read_free(h_nbr[h]));
+		h_nbr[h] = NULL;
+	} else if (hc_is("nbw_init", 2)) {
+		h = objidx(hc_tok[1]); fd = slotfd(hc_tok[2]);
+		if (h < 0 || fd < 0 || h_nbw[h] != NULL) {
+			printf("skip");
+			return (1);
+		}
+		LIB(h_nbw[h] = netbuf_write_init(fd, cb_never, NULL));
+		h_nbw_fd[h] = fd;
+		h_nbw_reserved[h] = 0;
+		if (h_nbw[h] == NULL)
+			failed = 1;
+	} else if (hc_is("nbw_reserve", 2)) {
+		size_t len = strtoull(hc_tok[2], NULL, 10);
+		uint8_t * p;
+
+		h = objidx(hc_tok[1]);
+		if (h < 0 || h_nbw[h] == NULL || h_nbw_reserved[h]) {
+			printf("skip");
+			return (1);
+		}
+		LIB(p = netbuf_write_reserve(h_nbw[h], len));
+		if (p == NULL)
+			failed = 1;
+		else {
+			memset(p, 0x5a, len);
+			h_nbw_reserved[h] = 1;
+			h_nbw_resv[h] = len;
+		}
+	} else if (hc_is("nbw_consume", 2) || hc_is("nbw_write", 2)) {
+		/* both may start a network_write on the writer's descriptor, unless one is in progress */
+		size_t len = strtoull(hc_tok[2], NULL, 10);
+		int isc = hc_tok[0][4] == 'c', rc;
+		struct { int s; void * ssl; int reserved; int failed; int (* fc)(void *); void * fck;
+		    struct { void * first; void ** last; } buffers; void * write_cookie; void * curr; } * wv;
+
+		h = objidx(hc_tok[1]);
+		wv = (h >= 0) ? (void *)h_nbw[h] : NULL;
+		if (wv == NULL || (isc ? (!h_nbw_reserved[h] || len > h_nbw_resv[h]) : h_nbw_reserved[h]) ||
+		    (wv->write_cookie == NULL && slot_busy(h_nbw_fd[h], 1))) {
+			printf("skip");
+			return (1);
+		}
+		if (isc) {
+			LIB(rc = netbuf_write_consume(h_nbw[h], len));
+			h_nbw_reserved[h] = 0;
+		} else {
+			uint8_t * data = malloc(len ? len : 1);
+
+			memset(data, 0xa5, len);
+			LIB(rc = netbuf_write_write(h_nbw[h], data, len));
+			free(data);
+		}
+		if (rc)
+			failed = 1;
+	} else if (hc_is("nbw_free", 1)) {
+		h = objidx(hc_tok[1]);
+		if (h < 0 || h_nbw[h] == NULL) {
+			printf("skip");
+			return (1);
+		}
+		LIB(netbuf_write_free(h_nbw[h]));
+		h_nbw[h] = NULL;
+		h_nbw_reserved[h] = 0;
+	} else if (hc_is("hq_start", 3)) {
+		/* hq_start <h> <pattern> <pathlen>: GET /ppp… with two headers */
+		static struct http_header hdrs[2] = { { "Host", "x" }, { "Connection", "close" } };
+		static char path[300];
+		struct http_request req;
+		size_t pl = strtoull(hc_tok[3], NULL, 10);
+
+		h = objidx(hc_tok[1]);
+		if (h < 0 || h_http[h] != NULL || strlen(hc_tok[2]) > 8 || pl > 256) {
+			printf("skip");
+			return (1);
+		}
+		path[0] = '/';
+		memset(path + 1, 'p', pl);
+		path[1 + pl] = '\0';
+		req.method = "GET"; req.path = path; req.nheaders = 2; req.headers = hdrs;
+		req.bodylen = 0; req.body = NULL;
+		h_http_sas[h] = mk_sas(hc_tok[2]);
+		LIB(h_http[h] = http_request(h_http_sas[h], &req, 1000, cb_never_http, NULL));
+		if (h_http[h] == NULL) {
+			failed = 1;
+			sock_addr_freelist(h_http_sas[h]);
+		}
+	} else if (hc_is("hq_cancel", 1)) {
+		h = objidx(hc_tok[1]);
+		if (h < 0 || h_http[h] == NULL) {
+			printf("skip");
+			return (1);
+		}
+		http_cancel(h);
+	} else
+		return (0);
+	drain_listener();
+	finish_line("");
+	fine_l2();
+	return (1);
+}
+
 int
 main(void)
 {
@@ -231,23 +796,28 @@ main(void)
 	if (mkdtemp(tmpdir) == NULL)
 		return (2);
 	hw_atexit_hook = record_handler;
+	fine_setup(tmpdir);
 	while (hc_next()) {
 		hw_begin();
 		failed = 0; bad = NULL; runfail = 0; done = 0; ncb = 0; cbval = 0; peerlen = 0;
 		extra[0] = '\0';
 		if (hc_is("case", 1)) {
+			/* a case may stop anywhere (the shrinker removes ops): release what it left behind */
+			hw_mode = 0;
+			(void)release_all();
 			hw_reset();
 			printf("case %s", hc_tok[1]);
 		} else if (hw_schedule_op(hc_tok, hc_ntok)) {
 			printf("ok");
 		} else if (hc_is("end", 0)) {
-			int h;
+			int left;
 
 			hw_mode = 0;
-			/* the library's own exit handlers: pools, events_timer_shutdown, events_network_shutdown */
-			for (h = nhandlers - 1; h >= 0; h--)
-				LIB((handlers[h])());
-			printf("end live=%ld leaked=0 | n=%llu", hw_live, (unsigned long long)hw_n);
+			left = release_all();
+			/* `leaked`: registrations still there after every object was released with its normal call */
+			printf("end live=%ld leaked=%d | n=%llu", hw_live, left, (unsigned long long)hw_n);
+		} else if (fine_op()) {
+			;
 		} else if (hc_is("nw", 3) || hc_is("nr", 3)) {
 			/* nw/nr <len> <min> <seed>: one network_write / network_read over a socketpair */
 			size_t len = strtoull(hc_tok[1], NULL, 10), min = strtoull(hc_tok[2], NULL, 10);
@@ -269,15 +839,15 @@ main(void)
 
 				for (i = 0; i < len; i++)
 					src[i] = pat(seed, i);
-				while (o < len && (w = write(sv[1], src + o, len - o)) > 0)
-					o += (size_t)w;
-				free(src);
+				(void)o; (void)w;
+				feed_fd = sv[1]; feed_src = src; feed_off = 0; feed_len = len;
+				feed_step();
 				LIB(c = network_read(sv[0], buf, len, min, cb_rw, NULL));
 			}
 			if (c == NULL)
 				failed = 1;
 			else {
-				spin(isw ? sv[1] : -1, 100);
+				spin(isw ? sv[1] : -1, 400);
 				if (!done) {
 					if (isw)
 						LIB(network_write_cancel(c));
@@ -305,6 +875,10 @@ main(void)
 				snprintf(extra, sizeof(extra), " n=%zd", cbval);
 			}
 			close(sv[0]); close(sv[1]);
+			if (feed_fd >= 0) {
+				free(feed_src);
+				feed_fd = -1;
+			}
 			free(buf);
 			finish_line(extra);
 		} else if (hc_is("nbw", 3)) {
@@ -402,6 +976,7 @@ main(void)
 				src[i] = pat(seed, i);
 			while (o < total && (w = write(sv[1], src + o, total - o)) > 0)
 				o += (size_t)w;
+			nbr_visible = 0;
 			LIB(R = netbuf_read_init(sv[0]));
 			if (R == NULL)
 				failed = 1;
@@ -413,6 +988,7 @@ main(void)
 					LIB(rc = netbuf_read_wait(R, chunk, cb_status, NULL));
 					if (rc) {
 						failed = 1;
+						nbr_check_unchanged(R, seed, consumed);
 						continue;	/* the same wait can be requested again */
 					}
 					spin(-1, 100);
@@ -437,6 +1013,7 @@ main(void)
 								bad = "reader-data";
 						LIB(netbuf_read_consume(R, chunk));
 						consumed += chunk;
+						nbr_visible = dl - chunk;
 					}
 				}
 				LIB(netbuf_read_free(R));
@@ -471,8 +1048,17 @@ main(void)
 			} else if (variant == 1) {
 				response = "HTTP/1.1 200 OK\r\nTransfer-Encoding: chunked\r\n\r\n5\r\nhello\r\n6\r\n world\r\n0\r\n\r\n";
 				expect_body = "hello world";
-			} else {
+			} else if (variant == 2) {
 				response = "HTTP/1.1 100 Continue\r\n\r\nHTTP/1.1 200 OK\r\nConnection: close\r\n\r\nhello world";
+				expect_body = "hello world";
+			} else if (variant == 3) {
+				/* an interim response WITH header lines: its header array is freed before the final response is parsed */
+				response = "HTTP/1.1 100 Continue\r\nX-A: y\r\nX-B: z\r\n\r\n"
+				    "HTTP/1.1 200 OK\r\nContent-Length: 11\r\nX-C: w\r\n\r\nhello world";
+				expect_body = "hello world";
+			} else {
+				response = "HTTP/1.1 100 Continue\r\nX-A: y\r\n\r\nHTTP/1.1 102 Processing\r\nX-B: z\r\nX-C: w\r\n\r\n"
+				    "HTTP/1.1 200 OK\r\nTransfer-Encoding: chunked\r\n\r\nb\r\nhello world\r\n0\r\n\r\n";
 				expect_body = "hello world";
 			}
 			sas = sock_resolve(path);
@@ -513,6 +1099,128 @@ main(void)
 			unlink(path);
 			sock_addr_freelist(sas);
 			finish_line(extra);
+		} else if (strcmp(hc_tok[0], "nbrv") == 0 && hc_ntok >= 4 && hc_ntok <= 12) {
+			/*
+			 * nbrv <seed> <total> <c1> <c2> ...: buffered reader, waits of different sizes (so that the buffer is
+			 * grown while it holds consumed and unconsumed bytes); after a failed wait the visible bytes must be
+			 * unchanged, and the same wait is made again
+			 */
+			uint64_t seed = strtoull(hc_tok[1], NULL, 10);
+			size_t total = strtoull(hc_tok[2], NULL, 10), consumed = 0, k;
+			struct netbuf_read * R;
+			uint8_t * src = malloc(total ? total : 1);
+			int tries = 0;
+
+			socketpair(AF_UNIX, SOCK_STREAM, 0, sv);
+			nonblock(sv[0]); nonblock(sv[1]);
+			for (i = 0; i < total; i++)
+				src[i] = pat(seed, i);
+			feed_fd = sv[1]; feed_src = src; feed_off = 0; feed_len = total;
+			feed_step();
+			nbr_visible = 0;
+			LIB(R = netbuf_read_init(sv[0]));
+			if (R == NULL)
+				failed = 1;
+			else {
+				for (k = 3; k < (size_t)hc_ntok && bad == NULL; k++) {
+					size_t chunk = strtoull(hc_tok[k], NULL, 10);
+					int rc;
+
+					if (chunk == 0 || consumed + chunk > total)
+						break;
+					done = 0;
+					LIB(rc = netbuf_read_wait(R, chunk, cb_status, NULL));
+					if (rc) {
+						failed = 1;
+						nbr_check_unchanged(R, seed, consumed);
+						if (tries++ < 3)
+							k--;	/* the same wait again */
+						continue;
+					}
+					spin(-1, 400);
+					if (!done) {
+						LIB(netbuf_read_wait_cancel(R));
+						if (!runfail)
+							bad = "wait-never-completed";
+						break;
+					}
+					if (cbval != 0) {
+						failed = 1;
+						break;
+					} else {
+						uint8_t * d;
+						size_t dl;
+
+						LIB(netbuf_read_peek(R, &d, &dl));
+						if (dl < chunk)
+							bad = "short-peek";
+						for (i = 0; i < dl && bad == NULL; i++)
+							if (d[i] != pat(seed, consumed + i))
+								bad = "reader-data";
+						LIB(netbuf_read_consume(R, chunk));
+						consumed += chunk;
+						nbr_visible = dl - chunk;
+					}
+				}
+				LIB(netbuf_read_free(R));
+			}
+			snprintf(extra, sizeof(extra), " consumed=%zu", consumed);
+			close(sv[0]); close(sv[1]);
+			free(src);
+			feed_fd = -1;
+			finish_line(extra);
+		} else if (hc_is("aws", 2)) {
+			/*
+			 * aws <variant> <bodylen>: aws_sign_s3_headers / s3_querystr / svc_headers / dynamodb_headers.  A reference
+			 * run outside the fault schedule gives the expected strings; under faults the call must either fail
+			 * (some request refused) or succeed with NO request refused and exactly those strings.
+			 */
+			int variant = atoi(hc_tok[1]), rc = 0;
+			size_t bl = strtoull(hc_tok[2], NULL, 10), j;
+			uint8_t * body = malloc(bl ? bl : 1);
+			char * ref[3] = { NULL, NULL, NULL }, * got[3] = { NULL, NULL, NULL };
+			int pass;
+
+			for (j = 0; j < bl; j++)
+				body[j] = pat(7, j);
+			for (pass = 0; pass < 2; pass++) {
+				char ** o = pass ? got : ref;
+
+				if (pass)
+					hw_depth++;
+				if (variant == 0)
+					rc = aws_sign_s3_headers("AKIDEXAMPLE", "wJalrXUtnFEMI/K7MDENG+bPxRfiCYEXAMPLEKEY", "us-east-1",
+					    "PUT", "bucket", "/some/path", body, bl, &o[0], &o[1], &o[2]);
+				else if (variant == 1)
+					rc = ((o[0] = aws_sign_s3_querystr("AKIDEXAMPLE", "wJalrXUtnFEMI/K7MDENG+bPxRfiCYEXAMPLEKEY",
+					    "us-east-1", "GET", "bucket", "/some/path", 3600)) == NULL) ? -1 : 0;
+				else if (variant == 2)
+					rc = aws_sign_svc_headers("AKIDEXAMPLE", "wJalrXUtnFEMI/K7MDENG+bPxRfiCYEXAMPLEKEY", "us-east-1",
+					    "ec2", body, bl, &o[0], &o[1], &o[2]);
+				else
+					rc = aws_sign_dynamodb_headers("AKIDEXAMPLE", "wJalrXUtnFEMI/K7MDENG+bPxRfiCYEXAMPLEKEY",
+					    "us-east-1", "PutItem", body, bl, &o[0], &o[1], &o[2]);
+				if (pass)
+					hw_depth--;
+				else if (rc)
+					bad = "reference-run-failed";
+			}
+			if (rc)
+				failed = 1;
+			else {
+				if (hw_rf() > 0)
+					bad = "success-although-a-request-was-refused";
+				for (j = 0; j < 3 && bad == NULL; j++)
+					if ((ref[j] == NULL) != (got[j] == NULL) || (ref[j] != NULL && strcmp(ref[j], got[j]) != 0))
+						bad = "signature-differs-from-the-fault-free-run";
+			}
+			for (j = 0; j < 3; j++) {
+				free(ref[j]);
+				if (rc == 0)
+					free(got[j]);
+			}
+			free(body);
+			finish_line("");
 		} else if (hc_is("hs", 1)) {
 			char * s;
 
@@ -545,6 +1253,9 @@ main(void)
 		if (strcmp(hc_tok[0], "case") == 0)
 			fflush(stdout);
 	}
+	hw_mode = 0;
+	(void)release_all();
+	unlink(goodpath);
 	rmdir(tmpdir);
 	free(hc_line);
 	return (0);
